@@ -17,7 +17,8 @@ class LockRegions(object):
         self.fn = fn
         self.keys = Keys(unit)
         self.guards = []      # (vardecl, mutex_key, compound, index_in_compound)
-        self.manual = []      # raw lock/unlock calls
+        self.manual = []      # raw lock/unlock calls that cannot be followed
+        self.toggles = []     # (call, guard decl id, locks?) : unique_lock::lock()/unlock() on a local guard
         for x in walk(fn):
             if x.get('kind') == 'VarDecl' and GUARD_RE.search(dtype(x) or qtype(x)):
                 ds = x.get('_p')
@@ -48,7 +49,13 @@ class LockRegions(object):
                         and c[2] is not None:
                     t = dtype(c[2]) or qtype(c[2])
                     if GUARD_RE.search(t) or re.search(r'\bmutex\b', t):
-                        self.manual.append(x)
+                        o = peel(c[2])
+                        gid = (o.get('referencedDecl') or {}).get('id') if o is not None and o.get('kind') == 'DeclRefExpr' else None
+                        if c[1] in ('lock', 'unlock') and gid is not None and re.search(r'unique_lock<', t):
+                            self.toggles.append((x, gid, c[1] == 'lock'))     # followed flow-sensitively
+                        else:
+                            self.manual.append(x)
+        self._flow = None
 
     def held_at(self, node):
         """[(mutex_key, guard_decl)] held when AST node `node` is evaluated."""
@@ -56,7 +63,10 @@ class LockRegions(object):
             return []
         out = []
         chain = [node] + list(ancestors(node))
+        held_now = self._held_flow(node) if self.toggles else None
         for (g, mk, comp, idx) in self.guards:
+            if held_now is not None and g['id'] in held_now and not held_now[g['id']]:
+                continue        # inside the guard's scope but after an unlock() on every/any path
             for i, a in enumerate(chain):
                 if a is comp and i > 0:
                     child = chain[i - 1]
@@ -67,11 +77,81 @@ class LockRegions(object):
                     break
         return out
 
+    def _held_flow(self, node):
+        """{guard decl id: held?} at `node` for guards that are unlocked / re-locked by hand: forward must-analysis
+        over the CFG (held at a join only if held on every incoming path)."""
+        from .cfg import CFG
+        if self._flow is None:
+            g = CFG(self.fn)
+            tog = {}
+            for (x, gid, locks) in self.toggles:
+                for n in g.nodes_for(x):
+                    tog.setdefault(n.id, []).append((x, gid, locks))
+            decl_nodes = {}
+            for (gd, mk, comp, idx) in self.guards:
+                for n in g.nodes_for(gd):
+                    decl_nodes.setdefault(n.id, []).append(gd['id'])
+
+            def transfer(n, st):
+                st = dict(st)
+                for gid in decl_nodes.get(n.id, ()):
+                    st[gid] = True
+                    st[('epoch', gid)] = 0
+                for (x, gid, locks) in tog.get(n.id, ()):
+                    st[gid] = locks
+                    if locks and st.get(('epoch', gid)) is not None:
+                        st[('epoch', gid)] = st.get(('epoch', gid), 0) + 1      # a new hold begins
+                return st
+
+            def meet(ins):
+                r = dict(ins[0])
+                for s_ in ins[1:]:
+                    for k in list(r):
+                        if isinstance(k, tuple):
+                            r[k] = r[k] if s_.get(k) == r[k] else None
+                        else:
+                            r[k] = r[k] and s_.get(k, False)
+                    for k in s_:
+                        r.setdefault(k, None if isinstance(k, tuple) else False)
+                return r
+            at, after = g.forward({}, transfer, meet)
+            self._flow = (g, at, after, tog)
+        g, at, after, tog = self._flow
+        ns = g.nodes_for(node)
+        if not ns:
+            return {}
+        out = None
+        for n in ns:
+            st = dict(at.get(n.id, {}))
+            # within the node that toggles, the state after the call applies to what follows it
+            if out is None:
+                out = st
+            else:
+                out = {k: ((out.get(k) if out.get(k) == st.get(k) else None) if isinstance(k, tuple) else
+                           (out.get(k, False) and st.get(k, False))) for k in set(out) | set(st)}
+        return out or {}
+
+    def same_epoch(self, a, b, guard):
+        """Are a and b inside one continuous hold of `guard` (no unlock()/lock() of it in between)?"""
+        if not self.toggles:
+            return True
+        fa, fb = self._held_flow(a), self._held_flow(b)
+        ea, eb = fa.get(('epoch', guard['id'])), fb.get(('epoch', guard['id']))
+        if not any(gid == guard['id'] for (_, gid, _) in self.toggles):
+            return True
+        return ea is not None and ea == eb
+
     def same_hold(self, a, b):
         """Guards whose region contains both a and b."""
         ga = {id(g): (mk, g) for (mk, g) in self.held_at(a)}
         gb = {id(g) for (mk, g) in self.held_at(b)}
-        return [v for k, v in ga.items() if k in gb]
+        both = [v for k, v in ga.items() if k in gb]
+        if self.toggles:
+            # a guard that is unlocked and re-locked by hand: both points must lie in the same hold of it
+            fa, fb = self._held_flow(a), self._held_flow(b)
+            both = [(mk, g) for (mk, g) in both
+                    if fa.get(('epoch', g['id'])) is not None and fa.get(('epoch', g['id'])) == fb.get(('epoch', g['id']))]
+        return both
 
 
 def static_mutex_keys(program):
